@@ -85,12 +85,12 @@ PROPS = {
              "advances and a request probes the session (plus crash-restart with Redis); the oracle allows one second of granularity; non-trivial = a session was read inside or past its limits; "
              "distinct = operation/result trace",
              {"runs": 12000, "budget_s": 30}, {"runs": 1200000, "budget_s": 900},
-             must={"all": ["reads-past-limits", "reads-inside-limits", "system-reads-past-limits", "system-reads-inside-limits"]}),
+             must={"all": ["reads-past-limits", "reads-inside-limits", "system-reads-past-limits", "system-reads-inside-limits", "kept-alive-up-to-the-absolute-limit"]}),
     "C18": P("plans = 2-3 OIDC filters in different chains (header match), distinct or equal cookie names, providers, client ids and timeouts, over four store topologies (shared memory store, shared Redis, "
              "distinct Redis servers, mixed); a browser logs in at one filter and presents that session to the others under their cookie names (alone, with both cookies, mid-login at the other "
              "filter's callback), keeps a legitimate session at each, and every filter's own session is probed 2 s before and after that filter's own limits; "
              "non-trivial = a session of one filter was presented to another; distinct = canonical event trace",
-             {"runs": 4000, "budget_s": 30}, {"runs": 400000, "budget_s": 900}, must={"all": ["foreign-session-presented", "own-limits-probed"]}),
+             {"runs": 4000, "budget_s": 30}, {"runs": 400000, "budget_s": 900}, must={"all": ["foreign-session-presented", "own-limits-probed", "concurrent-logins-at-different-filters"]}),
     "C19": P("plans = 1-4 filters mapped to Secret names (shared, distinct, inline secret, explicit own namespace; every tenth plan a cross-namespace reference that start-up must refuse) and histories of "
              "set / delete / delete-with-finalizer / remove-key / empty events on referenced and unrelated Secrets in the own and another namespace, delivered by the simulator as reconcile requests "
              "with duplication, delay and reordering, interleaved with logins and refreshes; reference = map secret name -> last non-empty value at a completed reconcile; judged at the token endpoint "
